@@ -47,6 +47,11 @@ func controllerAttack(rep int) *hx.Record { //nolint:funlen,gocyclo
 
 	id := newWorldID()
 	users := []string{fmt.Sprintf("c19-%s-cc%d-a", runNonce, id), fmt.Sprintf("c19-%s-cc%d-b", runNonce, id)}
+	if k := rep % (nameSchemes + 1); k != 0 { // user IDs that are look-alikes of one another (names.go)
+		base := fmt.Sprintf("c19-%s-cc%d-user@example.com", runNonce, id)
+		users = []string{similarName(base, k, 1), similarName(base, k, 2)}
+	}
+
 
 	type fn func(rw *bytes.Buffer, req *bytes.Buffer) error
 
